@@ -624,7 +624,7 @@ def retry_baseline_after_attempt(prog, chk):
     b = prog.body("svgdx::transform::process_tags")
     chk.touch(b)
     CTX = "svgdx::context::TransformerContext::"
-    gens = b.call_sites(lambda c: c.decl_path == "svgdx::transform::EventGen::generate_events")
+    gens = b.call_sites(lambda c: (c.decl_path == "svgdx::transform::EventGen::generate_events" or c.path.endswith(" as svgdx::transform::EventGen>::generate_events")))
     if not gens:
         chk.anchor_missing("A4.retry-amplification", "process_tags: generate_events call not found")
         return
